@@ -291,6 +291,8 @@ class Verifier:
         fr.ghosts = ghosts
         for g, v in ghosts.items():
             fr.locals.setdefault(g, v)
+        for g, e in contract.ghost_init.items():
+            fr.locals[g] = I.ev(e, cf)
         if contract.decreases is not None:
             I.entry_measure = I.as_int(I.ev(contract.decreases, cf))
         for u in contract.uses:
